@@ -148,3 +148,45 @@ def fast_wrapper_obligations():
             o.goal = detail + ('' if okN else '; matrix size expressions: %r' % prods)
         obs.append(o)
     return obs, None
+
+
+def measure_factor_obligations():
+    """inner_products / integrate: the geometry enters the quadrature sum through the factor |det J| (the measure of the mapped domain does
+    not depend on the orientation of the parametrisation).  Reaching-definition analysis on the source: the operand of `fvals *= X` inside
+    `if geo is not None` is defined as an absolute value of determinants(geo.grid_jacobian(gaussgrid)).  Three-valued: proved when the
+    definition is an absolute value of the determinants of the Jacobians on the quadrature grid, refuted when it is those determinants
+    without an absolute value, unknown (-> bounded tier) for any other shape."""
+    import ast
+    import re
+    from pyvc import frontend
+    from pyvc.symexec import Obligation
+    FF = 'pyiga/assemble.py'
+    src = frontend.load(FF)
+    obs = []
+    for name in ('inner_products', 'integrate'):
+        fn = src.find(name)
+        status, detail = 'unknown', 'no `fvals *= <name>` under `if geo is not None` found'
+        for blk in [n for n in ast.walk(fn) if isinstance(n, ast.If) and ast.unparse(n.test) == 'geo is not None']:
+            defs = {}
+            for st in blk.body:
+                if isinstance(st, ast.Assign) and len(st.targets) == 1 and isinstance(st.targets[0], ast.Name):
+                    defs[st.targets[0].id] = ast.unparse(st.value)
+                if isinstance(st, ast.AugAssign) and isinstance(st.op, ast.Mult) and ast.unparse(st.target) == 'fvals' and isinstance(st.value, ast.Name):
+                    d = defs.get(st.value.id, '')
+                    m = re.match(r'^(np\.abs|np\.absolute|np\.fabs|abs)\((?:assemble_tools\.)?determinants\((\w+)\)\)$', d)
+                    m2 = re.match(r'^-?(?:assemble_tools\.)?determinants\((\w+)\)$', d)
+                    jac = defs.get((m or m2).group(m.lastindex if m else 1), '') if (m or m2) else ''
+                    on_grid = jac == 'geo.grid_jacobian(gaussgrid)'
+                    if m and on_grid:
+                        status, detail = 'proved', ''
+                    elif m2 and on_grid:
+                        status, detail = 'refuted', 'the integrand is multiplied by %s = %s: the signed determinant (an orientation-reversing geometry map flips the sign of every integral)' % (st.value.id, d)
+                    else:
+                        status, detail = 'unknown', 'unrecognised definition of the measure factor: %s = %s (Jacobians: %s)' % (st.value.id, d, jac)
+        o = Obligation('assemble:%s:measure-factor-is-abs-det' % name, 'rule', fn.lineno, [], None,
+                       '%s multiplies the weighted function values by |det J| of the geometry on the quadrature grid' % name, src=FF)
+        o.status, o.backend, o.time = status, 'ast-dataflow (reaching definition)', 0.0
+        if status != 'proved':
+            o.goal = detail
+        obs.append(o)
+    return obs, None
